@@ -11,6 +11,8 @@
 #include "CppUTest/TestHarness.h"
 #include "CppUTest/TestOutput.h"
 #include "CppUTest/TestResult.h"
+#include "CppUTest/TestRegistry.h"
+#include "CppUTest/TestPlugin.h"
 #include "CppUTestExt/MockSupport.h"
 #include "CppUTestExt/MockSupportPlugin.h"
 #include "CppUTestExt/MockFailure.h"
@@ -181,106 +183,216 @@ static unsigned char* newBuf(const std::string& content, size_t size)
     return bufs.back().data();
 }
 
+// what one interpreter session (a whole single scenario, or the body of one test of a run) hands back
+struct Session {
+    std::vector<std::string> rets, outs, lefts, posts;
+    long idx = 0;                       // index of the mock operation in progress
+    MockFailureReporter* reporter;      // the reporter mock() has while the operations run (NULL = the library's default one)
+    UtestShell* shell;                  // the test an explicit ":post" names
+    Session(MockFailureReporter* r, UtestShell* s) : reporter(r), shell(s) {}
+};
+
+// interprets operations until the tokens end.  Single scenario: the recording reporter throws Stop at the first failure.  Test of a
+// run: the library's own reporter fails the current test and leaves it (exception / longjmp through this frame).
+static void execOps(Toks& t, Session& S)
+{
+    std::vector<std::string>& rets = S.rets; std::vector<std::string>& outs = S.outs;
+    std::vector<std::string>& lefts = S.lefts; std::vector<std::string>& posts = S.posts;
+    for (; !t.end(); ) {
+        std::string op = t.next();
+        if (op == ":ok") { CHECK(true); continue; }                 // a check of the test's own (run mode only)
+        if (op == ":bad") { FAIL("own check"); continue; }
+        curScope = 0;
+        if (op == ":s") { curScope = t.u(); op = t.next(); }
+        MockSupport& ms = curScope ? mock(("s" + hx(curScope)).c_str()) : mock();
+        if (op == ":e" || op == ":E") {
+            unsigned n = (unsigned)t.u(); std::string f = fname(t.u()); int k = t.n();
+            MockExpectedCall& e = ms.expectNCalls(n, f.c_str());
+            for (int i = 0; i < k; i++) { std::string pn = pname(t.u()); Val v = readVal(t); withParam(e, pn, v); }
+            if (op == ":E") {
+                int ko = t.n();
+                for (int i = 0; i < ko; i++) {
+                    std::string on = oname(t.u()); std::string b; t.bytes(b);
+                    e.withOutputParameterReturning(on.c_str(), newBuf(b, 1), b.size());
+                }
+                if (t.peek() == "~") t.next(); else e.onObject((void*)(uintptr_t)t.u());     // "0" = onObject(NULLPTR): the null object
+            }
+            if (t.peek() == "~") t.next(); else { Val v = readVal(t); andReturn(e, v); }
+            if (t.u()) e.ignoreOtherParameters();
+        }
+        else if (op == ":c" || op == ":C") {
+            std::string f = fname(t.u()); int k = t.n();
+            struct It { char kind; std::string name; Val v; unsigned char* buf; void* obj; };
+            std::vector<It> its;
+            for (int i = 0; i < k; i++) {
+                It it; it.kind = 'i'; it.buf = nullptr; it.obj = nullptr;
+                if (op == ":C") {
+                    std::string tag = t.next();
+                    if (tag == ":in") { it.name = pname(t.u()); it.v = readVal(t); }
+                    else if (tag == ":out") { it.kind = 'o'; it.name = oname(t.u()); std::string b; t.bytes(b); it.buf = newBuf(b, OUT_MAX); }
+                    else if (tag == ":obj") { it.kind = 'j'; it.obj = (void*)(uintptr_t)t.u(); }
+                    else { fprintf(stderr, "bad item %s\n", tag.c_str()); exit(3); }
+                }
+                else { it.name = pname(t.u()); it.v = readVal(t); }
+                its.push_back(it);
+            }
+            bool want = t.u() != 0;
+            MockActualCall& c = ms.actualCall(f.c_str());
+            for (auto& it : its) {
+                if (it.kind == 'i') withParam(c, it.name, it.v);
+                else if (it.kind == 'o') c.withOutputParameter(it.name.c_str(), it.buf);
+                else c.onObject(it.obj);
+            }
+            if (want) { if (c.hasReturnValue()) rets.push_back(showValue(c.returnValue())); else rets.push_back(":n"); }
+            for (auto& it : its) if (it.kind == 'o') outs.push_back(hbytes(it.buf, OUT_MAX));
+        }
+        else if (op == ":chk") ms.checkExpectations();
+        else if (op == ":clr") ms.clear();
+        else if (op == ":strict") ms.strictOrder();
+        else if (op == ":ign") ms.ignoreOtherCalls();
+        else if (op == ":en") ms.enable();
+        else if (op == ":dis") ms.disable();
+        else if (op == ":left") lefts.push_back(ms.expectedCallsLeft() ? "1" : "0");
+        else if (op == ":post") {
+            std::vector<std::string> msgs; size_t counted = 0;
+            if (curScope == 0) {
+                PostOutput po; TestResult tr(po); MockSupportPlugin plugin;
+                plugin.postTestAction(*S.shell, tr);
+                msgs = po.msgs; counted = tr.getFailureCount();
+            }
+            else {
+                Collector col(*S.shell);
+                mock().setMockFailureStandardReporter(&col);
+                MockSupport& sc = mock(("s" + hx(curScope)).c_str());
+                sc.checkExpectations();
+                sc.clear();
+                msgs = col.msgs; counted = msgs.size();
+            }
+            mock().setMockFailureStandardReporter(S.reporter);
+            for (auto& m : msgs) posts.push_back(classify(m));
+            for (size_t i = msgs.size(); i < counted; i++) posts.push_back(":other 0 0 0 0");   // counted but not printed
+        }
+        else { fprintf(stderr, "bad op %s\n", op.c_str()); exit(3); }
+        S.idx++;
+    }
+}
+
+static void printObs(Out& o, long failedAt, const std::string& verdict, const Session& S)
+{
+    if (failedAt < 0) o << "~"; else { o << hx((unsigned long long)failedAt); o << verdict; }
+    o << hx(S.rets.size());
+    for (auto& r : S.rets) o << r;
+    o << hx(S.outs.size());
+    for (auto& r : S.outs) o << r;
+    o << hx(S.lefts.size());
+    for (auto& r : S.lefts) o << r;
+    o << hx(S.posts.size());
+    for (auto& r : S.posts) o << r;
+}
+
+// ---------------------------------------------------------------- a run of several tests with the MockSupportPlugin installed
+// ":T step*" per test.  The tests are UtestShells of a private TestRegistry that has the real MockSupportPlugin installed and are run
+// by TestRegistry::runAllTests with ONE TestResult; the body of a test interprets its steps with the library's default mock
+// failure reporter (it fails the current test and leaves it).  Observed per test: every failure that reaches the TestResult's
+// output while the test runs (body: the failing operation / the test's own check; after the body: what the plugin's end-of-test
+// check delivered), and TestResult::getFailureCount() when the test ended.
+struct TestScript {
+    Toks t; Session S; bool inBody = false; bool completed = false;
+    std::vector<std::string> bodyMsgs, postMsgs; std::vector<unsigned long long> bodyScope; size_t total = 0; bool ended = false;
+    TestScript() : S(nullptr, nullptr) {}
+};
+static TestScript* gCur = nullptr;
+class ScriptedUtest : public Utest {
+public:
+    explicit ScriptedUtest(TestScript* d) : d_(d) {}
+    void testBody() CPPUTEST_OVERRIDE { d_->inBody = true; execOps(d_->t, d_->S); d_->completed = true; }
+    void teardown() CPPUTEST_OVERRIDE { d_->inBody = false; }
+private:
+    TestScript* d_;
+};
+class ScriptedShell : public UtestShell {
+public:
+    ScriptedShell(TestScript* d, const char* name) : UtestShell("verif", name, "scenario.cpp", 1), d_(d) {}   // the name is not copied
+    Utest* createTest() CPPUTEST_OVERRIDE { gCur = d_; d_->S.shell = this; return new ScriptedUtest(d_); }
+private:
+    TestScript* d_;
+};
+struct RunOutput : TestOutput {
+    void printBuffer(const char*) CPPUTEST_OVERRIDE {}
+    void flush() CPPUTEST_OVERRIDE {}
+    void printFailure(const TestFailure& f) CPPUTEST_OVERRIDE
+    {
+        if (!gCur) return;
+        if (gCur->inBody) { gCur->bodyMsgs.push_back(f.getMessage().asCharString()); gCur->bodyScope.push_back(curScope); }
+        else gCur->postMsgs.push_back(f.getMessage().asCharString());
+    }
+    void printCurrentTestEnded(const TestResult& r) CPPUTEST_OVERRIDE { if (gCur) { gCur->total = r.getFailureCount(); gCur->ended = true; } }
+};
+
+static void runOfTests(Toks& t, Out& o)
+{
+    std::deque<TestScript> scripts;
+    while (!t.end()) {
+        if (t.next() != ":T") { fprintf(stderr, "expected :T\n"); exit(3); }
+        scripts.emplace_back();
+        while (!t.end() && t.peek() != ":T") scripts.back().t.t.push_back(t.next());
+    }
+    mock().clear();
+    mock().setMockFailureStandardReporter(nullptr);
+    {
+        TestRegistry registry;
+        MockSupportPlugin plugin("MockSupportPlugin");
+        registry.installPlugin(&plugin);
+        std::deque<std::string> names; std::deque<ScriptedShell> shells;
+        for (size_t k = 0; k < scripts.size(); k++) { names.push_back("t" + hx(k)); shells.emplace_back(&scripts[k], names.back().c_str()); }
+        for (size_t k = scripts.size(); k-- > 0;) registry.addTest(&shells[k]);      // addTest prepends: first added runs last
+        RunOutput out; TestResult result(out);
+        TestRegistry* previous = TestRegistry::getCurrentRegistry();
+        registry.setCurrentRegistry(&registry);
+        registry.runAllTests(result);
+        registry.setCurrentRegistry(previous);
+        gCur = nullptr;
+    }
+    mock().clear();
+    mock().setMockFailureStandardReporter(nullptr);
+    o << ":run"; o << hx(scripts.size());
+    for (auto& sc : scripts) {
+        // the first failure of the body: the test's own check, or the mock failure of the operation in progress; anything the body
+        // delivered beyond it is shown with the end-of-test failures (and is one failure too many)
+        bool own = false; long failedAt = -1; std::string verdict;
+        size_t from = 0;
+        if (!sc.bodyMsgs.empty()) {
+            from = 1;
+            if (sc.bodyMsgs[0] == "own check") own = true;
+            else { failedAt = sc.S.idx; curScope = sc.bodyScope[0]; verdict = classify(sc.bodyMsgs[0]); }
+        }
+        for (size_t k = from; k < sc.bodyMsgs.size(); k++) { curScope = sc.bodyScope[k]; sc.S.posts.push_back(classify(sc.bodyMsgs[k])); }
+        curScope = 0;
+        for (auto& m : sc.postMsgs) sc.S.posts.push_back(classify(m));
+        o << (own ? "1" : "0"); o << (sc.ended ? hx(sc.total) : std::string("?"));
+        printObs(o, failedAt, verdict, sc.S);
+    }
+    o.flush();
+}
+
 int main()
 {
     Toks t; Out o;
     Recorder rec;
     while (readline(t)) {
         keep.clear(); bufs.clear();
+        if (t.peek() == ":T") { runOfTests(t, o); continue; }
         rec.msg.clear(); rec.count = 0;
         mock().clear();
         mock().setMockFailureStandardReporter(&rec);
-        std::vector<std::string> rets, outs, lefts, posts;
-        long failedAt = -1; long idx = 0;
+        Session S(&rec, &rec.shell);
+        long failedAt = -1;
         curScope = 0;
-        try {
-            for (; !t.end(); idx++) {
-                std::string op = t.next();
-                curScope = 0;
-                if (op == ":s") { curScope = t.u(); op = t.next(); }
-                MockSupport& ms = curScope ? mock(("s" + hx(curScope)).c_str()) : mock();
-                if (op == ":e" || op == ":E") {
-                    unsigned n = (unsigned)t.u(); std::string f = fname(t.u()); int k = t.n();
-                    MockExpectedCall& e = ms.expectNCalls(n, f.c_str());
-                    for (int i = 0; i < k; i++) { std::string pn = pname(t.u()); Val v = readVal(t); withParam(e, pn, v); }
-                    if (op == ":E") {
-                        int ko = t.n();
-                        for (int i = 0; i < ko; i++) {
-                            std::string on = oname(t.u()); std::string b; t.bytes(b);
-                            e.withOutputParameterReturning(on.c_str(), newBuf(b, 1), b.size());
-                        }
-                        if (t.peek() == "~") t.next(); else e.onObject((void*)(uintptr_t)t.u());
-                    }
-                    if (t.peek() == "~") t.next(); else { Val v = readVal(t); andReturn(e, v); }
-                    if (t.u()) e.ignoreOtherParameters();
-                }
-                else if (op == ":c" || op == ":C") {
-                    std::string f = fname(t.u()); int k = t.n();
-                    struct It { char kind; std::string name; Val v; unsigned char* buf; void* obj; };
-                    std::vector<It> its;
-                    for (int i = 0; i < k; i++) {
-                        It it; it.kind = 'i'; it.buf = nullptr; it.obj = nullptr;
-                        if (op == ":C") {
-                            std::string tag = t.next();
-                            if (tag == ":in") { it.name = pname(t.u()); it.v = readVal(t); }
-                            else if (tag == ":out") { it.kind = 'o'; it.name = oname(t.u()); std::string b; t.bytes(b); it.buf = newBuf(b, OUT_MAX); }
-                            else if (tag == ":obj") { it.kind = 'j'; it.obj = (void*)(uintptr_t)t.u(); }
-                            else { fprintf(stderr, "bad item %s\n", tag.c_str()); exit(3); }
-                        }
-                        else { it.name = pname(t.u()); it.v = readVal(t); }
-                        its.push_back(it);
-                    }
-                    bool want = t.u() != 0;
-                    MockActualCall& c = ms.actualCall(f.c_str());
-                    for (auto& it : its) {
-                        if (it.kind == 'i') withParam(c, it.name, it.v);
-                        else if (it.kind == 'o') c.withOutputParameter(it.name.c_str(), it.buf);
-                        else c.onObject(it.obj);
-                    }
-                    if (want) { if (c.hasReturnValue()) rets.push_back(showValue(c.returnValue())); else rets.push_back(":n"); }
-                    for (auto& it : its) if (it.kind == 'o') outs.push_back(hbytes(it.buf, OUT_MAX));
-                }
-                else if (op == ":chk") ms.checkExpectations();
-                else if (op == ":clr") ms.clear();
-                else if (op == ":strict") ms.strictOrder();
-                else if (op == ":ign") ms.ignoreOtherCalls();
-                else if (op == ":en") ms.enable();
-                else if (op == ":dis") ms.disable();
-                else if (op == ":left") lefts.push_back(ms.expectedCallsLeft() ? "1" : "0");
-                else if (op == ":post") {
-                    std::vector<std::string> msgs; size_t counted = 0;
-                    if (curScope == 0) {
-                        PostOutput po; TestResult tr(po); MockSupportPlugin plugin;
-                        plugin.postTestAction(rec.shell, tr);
-                        msgs = po.msgs; counted = tr.getFailureCount();
-                    }
-                    else {
-                        Collector col(rec.shell);
-                        mock().setMockFailureStandardReporter(&col);
-                        MockSupport& sc = mock(("s" + hx(curScope)).c_str());
-                        sc.checkExpectations();
-                        sc.clear();
-                        msgs = col.msgs; counted = msgs.size();
-                    }
-                    mock().setMockFailureStandardReporter(&rec);
-                    for (auto& m : msgs) posts.push_back(classify(m));
-                    for (size_t i = msgs.size(); i < counted; i++) posts.push_back(":other 0 0 0 0");   // counted but not printed
-                }
-                else { fprintf(stderr, "bad op %s\n", op.c_str()); exit(3); }
-            }
-        } catch (Stop&) { failedAt = idx; }
+        try { execOps(t, S); } catch (Stop&) { failedAt = S.idx; }
         std::string verdict = failedAt < 0 ? std::string() : classify(rec.msg);
         mock().clear();
         mock().setMockFailureStandardReporter(nullptr);
-        if (failedAt < 0) o << "~"; else { o << hx((unsigned long long)failedAt); o << verdict; }
-        o << hx(rets.size());
-        for (auto& r : rets) o << r;
-        o << hx(outs.size());
-        for (auto& r : outs) o << r;
-        o << hx(lefts.size());
-        for (auto& r : lefts) o << r;
-        o << hx(posts.size());
-        for (auto& r : posts) o << r;
+        printObs(o, failedAt, verdict, S);
         o.flush();
     }
     return 0;
